@@ -95,12 +95,14 @@ def mutations(root):
 
 
 def copy_step(cls, mask, n1, n2, mut, deep):
-    """returns list of problems"""
+    """returns list of problems.  mut = -1: none; 0..n-1: that single-attribute mutation applied to the COPY afterwards (independence);
+    n..2n-1: mutation (mut-n) applied to the ORIGINAL first (flags, aliases, strings, list edits on every reachable node), so that
+    every attribute value the mutation table can produce is in the copied tree"""
     full, deep = cb(mask), cb(deep)
     n1 = ci(n1, 3)
     n2 = n1
     nmut = len(mutations(build(cls, tuple([full] * 8), n1, n2)))
-    mut = ci(mut + 1, nmut) - 1
+    mut = ci(mut + 1, 2 * nmut) - 1
     # all inputs are concrete on this path: run the real code natively
     with NoTracing():
         return _copy_concrete(cls, full, n1, n2, mut, deep)
@@ -108,21 +110,39 @@ def copy_step(cls, mask, n1, n2, mut, deep):
 
 def _copy_concrete(cls, full, n1, n2, mut, deep):
     node = build(cls, tuple([full] * 8), n1, n2)
-    s0, t0 = node.to_string(), node.to_tree()
+    nmut = len(mutations(node))
+    pre = None
+    if mut >= nmut:
+        label, thunk = mutations(node)[mut - nmut]
+        thunk()
+        pre = label
+        mut = -1
+        if any(isinstance(o, A.Identifier) and not o.parts for o in reachable(node).values()):
+            return []       # an identifier without parts is not a tree any parser or constructor produces
+    try:
+        s0, t0 = node.to_string(), node.to_tree()
+    except Exception:  # noqa
+        if pre is not None:
+            return []       # the pre-mutation did not yield a printable tree: not an input
+        raise
+    tag = (' [original prepared with %s]' % pre) if pre else ''
     cp = _copy.deepcopy(node) if deep else node.copy()
     problems = []
     if type(cp) is not type(node):
-        return ['copy has another type']
+        return ['copy has another type' + tag]
     if not (cp == node):
-        problems.append('copy != original')
+        problems.append('copy != original' + tag)
     if cp.to_string() != s0 or cp.to_tree() != t0:
-        problems.append('copy prints differently')
+        problems.append('copy prints differently' + tag)
     if set(vars(cp)) != set(vars(node)):
-        problems.append('copy has different attributes: %s' % sorted(set(vars(cp)) ^ set(vars(node))))
+        problems.append('copy has different attributes: %s%s' % (sorted(set(vars(cp)) ^ set(vars(node))), tag))
+    for k, v in vars(node).items():
+        if isinstance(v, (bool, str, int)) and k in vars(cp) and vars(cp)[k] != v:
+            problems.append('copy has %s=%r, the original %r%s' % (k, vars(cp)[k], v, tag))
     shared = set(reachable(cp)) & set(reachable(node))
     if shared:
-        problems.append('copy shares %d mutable object(s) with the original: %s' %
-                        (len(shared), sorted(type(reachable(node)[i]).__name__ for i in shared)[:3]))
+        problems.append('copy shares %d mutable object(s) with the original: %s%s' %
+                        (len(shared), sorted(type(reachable(node)[i]).__name__ for i in shared)[:3], tag))
     muts = mutations(cp)
     if 0 <= mut < len(muts):
         label, thunk = muts[mut]
